@@ -367,7 +367,7 @@ func (r *relay) updateWindow(f *http2.WindowUpdateFrame) {
 	r.flowMu.Lock()
 	w := r.outputBuffer(f.StreamID)
 	w.windowSize += int(f.Increment)
-	w.emitEligibleFrames(r.output, &r.connectionWindowSize)
+	w.emitEligibleFrames(r.output, r.done, &r.connectionWindowSize)
 	r.flowMu.Unlock()
 }
 
@@ -396,7 +396,7 @@ func (r *relay) data(id uint32, data []byte, streamEnded bool) error {
 
 		r.flowMu.Lock()
 		w.enqueue(f)
-		w.emitEligibleFrames(r.output, &r.connectionWindowSize)
+		w.emitEligibleFrames(r.output, r.done, &r.connectionWindowSize)
 		r.flowMu.Unlock()
 
 		// Some protocols send empty data frames with END_STREAM so the check is done here at the end
@@ -475,14 +475,14 @@ func (r *relay) enqueueFrame(f queuedFrame) {
 	r.flowMu.Lock()
 	w := r.outputBuffer(f.StreamID())
 	w.enqueue(f)
-	w.emitEligibleFrames(r.output, &r.connectionWindowSize)
+	w.emitEligibleFrames(r.output, r.done, &r.connectionWindowSize)
 	r.flowMu.Unlock()
 }
 
 func (r *relay) sendQueuedFramesUnderWindowSize() {
 	r.flowMu.Lock()
 	for _, w := range r.outputBuffers {
-		w.emitEligibleFrames(r.output, &r.connectionWindowSize)
+		w.emitEligibleFrames(r.output, r.done, &r.connectionWindowSize)
 	}
 	r.flowMu.Unlock()
 }
@@ -557,14 +557,23 @@ type outputBuffer struct {
 // emitEligibleFrames emits frames that would fit under both the stream window size and the
 // given connection window size. It updates the given connectionWindowSize if applicable.
 //
+// `output` is only drained while the `relayFrames` call of its relay is running. Frames may also be
+// emitted by the peer relay (on WINDOW_UPDATE and SETTINGS frames), possibly after that call has
+// returned, so emitting stops without blocking once `done` is closed: the session is over and the
+// remaining frames can no longer be delivered.
+//
 // This is not thread-safe. The caller should be holding `relay.flowMu`.
-func (w *outputBuffer) emitEligibleFrames(output chan queuedFrame, connectionWindowSize *int) {
+func (w *outputBuffer) emitEligibleFrames(output chan queuedFrame, done <-chan struct{}, connectionWindowSize *int) {
 	for e := w.queue.Front(); e != nil; {
 		f := e.Value.(queuedFrame)
 		if f.flowControlSize() > *connectionWindowSize || f.flowControlSize() > w.windowSize {
 			break
 		}
-		output <- f
+		select {
+		case output <- f:
+		case <-done:
+			return
+		}
 
 		*connectionWindowSize -= f.flowControlSize()
 		w.windowSize -= f.flowControlSize()
